@@ -5,9 +5,15 @@ import json, os, subprocess, sys
 
 ROOT = os.path.dirname(os.path.dirname(os.path.abspath(__file__)))
 
-# id -> (engine, category, technique, level text, level note, design ref)
-CLAIMED = {
-}
+sys.path.insert(0, ROOT)
+from props import PROPS
+
+# id -> (engine, category, technique, level text, level note, design ref), taken from props.py
+CLAIMED = {}
+for _pid, _p in PROPS.items():
+    _c = _p.get("claim")
+    if _c:
+        CLAIMED[_pid] = ("+".join(sorted(set(j["engine"] for j in _p["jobs"]))), _p["level"], _c["technique"], _c["text"], _c["note"], _c["ref"])
 
 # id -> reason; every property that is not in CLAIMED must be here
 NOT_CLAIMED = {
